@@ -10,7 +10,8 @@
 (* item: [k |-> "set", key, v]   v: [k|->"col", c] | [k|->"lit", v]            *)
 (*                                  | [k|->"addvar", key, c]  (GETVAR(key)+c) *)
 (*       [k |-> "get", key, as]  [k |-> "col", c]                            *)
-(*   prog    Seq([sel |-> Seq(item), tbl |-> Seq(row)])                      *)
+(*   prog    Seq([sel |-> Seq(item), tbl |-> Seq(row), lim |-> -1 or n])     *)
+(*           LIMIT cuts the rows Exec returns; every row is still evaluated  *)
 (*   vars    the caller's variable map (function from a set of keys)         *)
 (*   qi ri ii  current query / row / item;  sub = 1 after the argument of a   *)
 (*           SETVAR(k, GETVAR(k2) + c) has been read into tmp                *)
@@ -80,7 +81,7 @@ EndRow ==
 \* Exec returns: the caller sees the rows and, in its own map, the last value written per key
 EndQuery ==
     /\ Running /\ ri > Len(Q_.tbl)
-    /\ results' = Append(results, [rows |-> out, vars |-> vars])
+    /\ results' = Append(results, [rows |-> Window(out, -1, Q_.lim), vars |-> vars])
     /\ qi' = qi + 1 /\ ri' = 1 /\ ii' = 1 /\ out' = <<>>
     /\ UNCHANGED <<prog, vars0, vars, sub, tmp, cur, calls>>
 
@@ -104,5 +105,5 @@ NoSetColumn ==
     \A r \in DOMAIN results : \A i \in DOMAIN results[r].rows :
         Keys(results[r].rows[i]) = {prog[r].sel[j].as : j \in {x \in DOMAIN prog[r].sel : prog[r].sel[x].k = "get"}} \cup
                                    {prog[r].sel[j].c : j \in {x \in DOMAIN prog[r].sel : prog[r].sel[x].k = "col"}}
-OneRowPerRow == \A r \in DOMAIN results : Len(results[r].rows) = Len(prog[r].tbl)
+OneRowPerRow == \A r \in DOMAIN results : Len(results[r].rows) = IF prog[r].lim < 0 THEN Len(prog[r].tbl) ELSE Min2(prog[r].lim, Len(prog[r].tbl))
 =============================================================================
